@@ -260,7 +260,51 @@ fn signature(req: &str, out: &str) -> (bool, String) {
     }
 }
 
+/// the premise of C16_fuel_partial, observed on the implementation: a URL with scheme blob parsed from
+/// the path p of a blob URL has a path with fewer ':' than p
+fn observe_blob_shrink(rep: &mut Report, req: &str) {
+    let w: Vec<&str> = req.split(' ').collect();
+    if w[0] != "urls" {
+        return;
+    }
+    for h in &w[2..] {
+        let mut cur = match Url::parse(&unhexs(h)) {
+            Ok(u) => u,
+            Err(_) => continue,
+        };
+        let mut depth = 0;
+        while cur.scheme() == "blob" && depth < 64 {
+            let p = cur.path().to_string();
+            match Url::parse(&p) {
+                Ok(v) => {
+                    if v.scheme() == "blob" {
+                        let (a, b) = (v.path().matches(':').count(), p.matches(':').count());
+                        if a < b {
+                            rep.bump("blob-path-shrinks:holds");
+                        } else {
+                            rep.bump("blob-path-shrinks:FAILS");
+                            if rep.notes.len() < 8 {
+                                rep.notes.push(format!("premise of C16_fuel_partial fails on the implementation: path {:?} parses to a blob URL with path {:?}", p, v.path()));
+                            }
+                        }
+                        if v.as_str().len() > p.len() {
+                            rep.bump("blob-inner-serialization-longer-than-path");
+                        }
+                    }
+                    cur = v;
+                    depth += 1;
+                }
+                Err(_) => break,
+            }
+        }
+        if depth > 0 {
+            rep.bump(&format!("blob-depth:{}", depth.min(5)));
+        }
+    }
+}
+
 fn compare(drv: &mut Driver, rep: &mut Report, stream: &str, req: &str) {
+    observe_blob_shrink(rep, req);
     let (model, imp) = both(drv, req);
     let (nt, sig) = signature(req, &imp);
     if model.contains("FUEL") {
@@ -573,6 +617,14 @@ fn property_urls(us: &[Url], inputs: &[String]) -> Option<String> {
                 }
                 if !os[i].is_tuple() {
                     return Some(format!("is_tuple() is false for the tuple origin of {:?}", inputs[i]));
+                }
+                let uh = match h2 {
+                    Host::Domain(d) => idna::domain_to_unicode(d).0,
+                    other => other.to_string(),
+                };
+                let un = os[i].unicode_serialization();
+                if un != ref_serialization(s2, &uh, *p2) {
+                    return Some(format!("unicode_serialization of the origin of {:?} is {:?}, expected {:?}", inputs[i], un, ref_serialization(s2, &uh, *p2)));
                 }
                 for (what, text) in [("ascii", a), ("unicode", os[i].unicode_serialization())] {
                     match Url::parse(&text) {
